@@ -7,6 +7,7 @@ from __future__ import annotations
 
 import inspect
 import itertools
+import os
 
 import onnx
 import onnx.defs
@@ -90,9 +91,20 @@ def _driver(ch):
     return {"domain": dom, "version": ver, "op": name, "shape": shape}
 
 
+_NODE_DATA = os.path.join(os.path.dirname(onnx.__file__), "backend", "test", "data", "node")
+
+
+def _behave_driver(ch):
+    cases = sorted(os.listdir(_NODE_DATA)) if os.path.isdir(_NODE_DATA) else []
+    chunk = 25
+    chunks = [cases[i:i + chunk] for i in range(0, len(cases), chunk)]
+    return {"shape": ["behave"], "cases": ch.all("node-test-chunk", chunks)}
+
+
 def plan(tier, seed):
     st = explore.Stats()
     items = [case for _, case in explore.explore(_driver, bound=0, stats=st)]
+    items += [case for _, case in explore.explore(_behave_driver, bound=0, stats=st)]
     d = st.as_dict()
     d["exhaustive"] = True
     d["dimensions"] = {k: len(v) for k, v in st.dim_hist.items()}
@@ -140,7 +152,104 @@ def _eq_default(py, sch):
     return type(py) is type(sch) and py == sch
 
 
+def _behave_one(case):
+    """Eager call opsetN.Op(*inputs, **attrs-as-written) vs the bare node run directly on ORT."""
+    import glob
+    import numpy as np
+    from onnx import numpy_helper
+    from vf import runeq
+    d = os.path.join(_NODE_DATA, case)
+    m = onnx.load(os.path.join(d, "model.onnx"))
+    if len(m.graph.node) != 1:
+        return "skip:multi-node", None
+    n = m.graph.node[0]
+    dom = n.domain or ""
+    ver = {o.domain: o.version for o in m.opset_import}.get(dom)
+    opset = _opsets().get((dom, ver))
+    if opset is None or not hasattr(type(opset), n.op_type):
+        return "skip:no-opset-class", None
+    if any(a.type in (onnx.AttributeProto.GRAPH, onnx.AttributeProto.GRAPHS) or a.ref_attr_name for a in n.attribute):
+        return "skip:graph-attr", None
+    feeds = {}
+    ins = glob.glob(os.path.join(d, "test_data_set_0", "input_*.pb"))
+    for i in range(len(ins)):
+        t = onnx.TensorProto()
+        with open(os.path.join(d, "test_data_set_0", f"input_{i}.pb"), "rb") as f:
+            raw = f.read()
+        try:
+            t.ParseFromString(raw)
+            if i >= len(m.graph.input) or not m.graph.input[i].type.HasField("tensor_type"):
+                return "skip:non-tensor-input", None
+            feeds[m.graph.input[i].name] = numpy_helper.to_array(t)
+        except Exception:
+            return "skip:non-tensor-input", None
+    if any(not o.type.HasField("tensor_type") for o in m.graph.output):
+        return "skip:non-tensor-output", None
+    if any(v.dtype.kind in "OUS" or v.dtype.name not in np.sctypeDict for v in feeds.values()):
+        return "skip:exotic-dtype", None
+    try:
+        want = runeq.run_ort(m, feeds)
+    except runeq.RunError as e:
+        return "skip:ort-" + e.kind, None
+    args = [None if nm == "" else feeds.get(nm) for nm in n.input]
+    if any(a is None and nm != "" for a, nm in zip(args, n.input)):
+        return "skip:input-not-fed", None
+    kwargs = {}
+    for a in n.attribute:
+        v = onnx.helper.get_attribute_value(a)
+        if isinstance(v, bytes):
+            v = v.decode()
+        elif isinstance(v, list) and v and isinstance(v[0], bytes):
+            v = [x.decode() for x in v]
+        kwargs[a.name] = v
+    meth = getattr(opset, n.op_type)
+    params = list(inspect.signature(meth).parameters.values())
+    npos = sum(1 for p in params if p.kind == p.POSITIONAL_OR_KEYWORD)
+    has_var = any(p.kind == p.VAR_POSITIONAL for p in params)
+    if not has_var and len(args) > npos:
+        return "skip:more-inputs-than-params", None
+    try:
+        got = meth(*args, **kwargs)
+    except Exception as e:  # noqa: BLE001
+        if type(e).__name__ == "EagerModeError" and "number of expected outputs" in str(e):
+            # eager mode cannot know how many outputs the caller wants: a refusal, not a wrong result
+            return "skip:eager-refuses-unknown-output-count", None
+        return "eager-raises", f"{type(e).__name__}: {str(e)[:300]}"
+    if not isinstance(got, (tuple, list)):
+        got = [got]
+    got = [None if g is None else np.asarray(getattr(g, "value", g)) for g in got]
+    # the eager call returns every schema output; the node declares a prefix (possibly with "" holes):
+    # compare position-wise where the node has a named output
+    by_name = {o.name: w for o, w in zip(m.graph.output, want)}
+    want_used, got_used = [], []
+    for i, o in enumerate(n.output):
+        if o == "" or o not in by_name:
+            continue
+        if i >= len(got):
+            return "differs", f"eager call returned {len(got)} outputs, node output #{i} missing"
+        want_used.append(by_name[o])
+        got_used.append(got[i])
+    diff = runeq.compare(got_used, want_used)
+    if diff:
+        return "differs", diff
+    return "agree", None
+
+
 def execute(item):
+    if item["shape"][0] == "behave":
+        viols, counts, nk = [], {}, []
+        for case in item["cases"]:
+            try:
+                kind, detail = _behave_one(case)
+            except Exception as e:  # noqa: BLE001
+                kind, detail = "skip:harness-" + type(e).__name__, None
+            counts["behave:" + kind] = counts.get("behave:" + kind, 0) + 1
+            if kind in ("agree", "differs", "eager-raises"):
+                nk.append("behave|" + case)
+            if kind in ("differs", "eager-raises"):
+                viols.append({"key": f"C17|eager-vs-node|{kind}|{case}", "detail": {"what": detail}})
+        counts["extra_evaluations"] = len(item["cases"]) - 1
+        return {"status": "viol" if viols else "ok", "outcome": "behave", "viols": viols, "nkey": nk, "counts": counts}
     from onnxscript import values
     from onnxscript._internal import evaluator
     dom, ver, name, shape = item["domain"], item["version"], item["op"], item["shape"]
